@@ -157,3 +157,25 @@ Definition merge_results (dec_oid dec_usr : bytes -> option bytes) (lim : nat) (
   | _, _ =>
     mloop dec_oid dec_usr first_attr cmp_int (S (length (concat sets))) (calc_max_unique lim sets) 0 mores sets
   end.
+
+(* StorageEngine.Search (pkg/local_object_storage/engine/select.go): how the
+   arguments of MergeSearchResults are chosen from the query (after the repair
+   that passes no attribute for a NOT_PRESENT primary filter), one shard is
+   passed through *)
+Definition engine_first_attr (fs : list filter) (attrs : list bytes) : bytes :=
+  match fs, attrs with
+  | f0 :: _, _ :: _ => if matcher_eqb (f_op f0) M_NOT_PRESENT then [] else f_key f0
+  | _, _ => []
+  end.
+Definition engine_cmp_int (fs : list filter) (attrs : list bytes) : bool :=
+  match engine_first_attr fs attrs, fs with
+  | _ :: _, f0 :: _ => is_int_op (f_op f0)
+  | _, _ => false
+  end.
+Definition engine_merge (dec_oid dec_usr : bytes -> option bytes) (count : nat) (fs : list filter) (attrs : list bytes)
+  (sets : list (list ritem)) (mores : list bool) : option (list ritem * bool) :=
+  match sets with
+  | [] => Some ([], false)
+  | [s] => Some (s, hd false mores)
+  | _ => merge_results dec_oid dec_usr count (engine_first_attr fs attrs) (engine_cmp_int fs attrs) sets mores
+  end.
